@@ -8,6 +8,7 @@
 package c11
 
 import (
+	"encoding/base64"
 	"encoding/hex"
 	"encoding/json"
 	"fmt"
@@ -22,6 +23,7 @@ import (
 	"verifsim/gen"
 	"verifsim/kernel"
 	"verifsim/oracle"
+	"verifsim/props/c15"
 	"verifsim/props/common"
 	"verifsim/simnet"
 )
@@ -64,6 +66,10 @@ type Scenario struct {
 	Ops       []common.FrameOp `json:"ops,omitempty"`
 	ServerKey string           `json:"server_key,omitempty"` // right | wrong | none
 	SegMode   int              `json:"segmode,omitempty"`
+	Transport string           `json:"transport,omitempty"` // session: tcp (through the middlebox) | udp (concurrent clients, server with a TSIG provider that takes a scheduling point)
+	Clients   int              `json:"clients,omitempty"`
+	Burst     bool             `json:"burst,omitempty"`    // udp: every client sends all its requests before reading any reply
+	Xfer      json.RawMessage  `json:"transfer,omitempty"` // kind transfer: a zone-transfer session with TSIG (scenario of the C15 harness)
 }
 
 const (
@@ -82,6 +88,15 @@ func Gen(seed uint64, tier string) any {
 	if core.Chance(r, 30) {
 		sc.Kind = "session"
 	}
+	if core.Chance(r, 10) {
+		// chains of envelopes through Transfer.In / Transfer.Out: the zone-transfer harness with TSIG forced on
+		x := c15.Gen(seed, tier).(*c15.Scenario)
+		if x.Alg == "" {
+			x.Alg, x.ClientKey, x.ServerKey, x.Fudge = core.Pick(r, algs...), true, true, 300
+		}
+		raw, _ := json.Marshal(x)
+		return &Scenario{RunSeed: seed, Kind: "transfer", Alg: x.Alg, Fudge: x.Fudge, Xfer: raw}
+	}
 	sc.Alg = core.Pick(r, algs...)
 	if core.Chance(r, 20) {
 		sc.Alg = strings.ToUpper(sc.Alg[:6]) + sc.Alg[6:]
@@ -92,6 +107,12 @@ func Gen(seed uint64, tier string) any {
 		sc.Strategy = r.IntN(kernel.NumStrats)
 		sc.SegMode = r.IntN(3)
 		sc.ServerKey = core.Pick(r, "right", "right", "right", "wrong", "none")
+		sc.Transport = core.Pick(r, "tcp", "tcp", "udp")
+		sc.Clients = 1
+		if sc.Transport == "udp" {
+			sc.Clients = 1 + r.IntN(4)
+			sc.Burst = core.Chance(r, 60)
+		}
 		n := 1 + r.IntN(4)
 		for i := 0; i < n; i++ {
 			e := Exch{Signed: core.Chance(r, 85), Reuse: core.Chance(r, 50), Recipe: *gen.Random(r, core.Pick(r, 0, 2, 6))}
@@ -111,7 +132,12 @@ func Gen(seed uint64, tier string) any {
 			}
 			sc.Exch = append(sc.Exch, e)
 		}
-		if core.Chance(r, 55) {
+		if sc.Transport == "udp" {
+			for i := range sc.Exch {
+				sc.Exch[i].Xfr, sc.Exch[i].Reuse = false, true
+			}
+		}
+		if sc.Transport == "tcp" && core.Chance(r, 55) {
 			nf := 1 + r.IntN(2)
 			for i := 0; i < nf; i++ {
 				op := common.FrameOp{Dir: core.Pick(r, "c2s", "s2c"), Env: r.IntN(n), Kind: core.Pick(r, "flip", "flip", "unsign", "wrongkey", "delay", "dup")}
@@ -250,8 +276,20 @@ func Shrink(x any) []any {
 func Run(t *testing.T, scAny any, verbose bool) *core.Result {
 	sc := scAny.(*Scenario)
 	res := &core.Result{Seed: sc.RunSeed, Verdict: core.OK, Stats: map[string]int{}}
+	if sc.Kind == "transfer" {
+		x, err := c15.Decode(sc.Xfer)
+		if err != nil {
+			return &core.Result{Seed: sc.RunSeed, Verdict: core.Harness, Msg: err.Error()}
+		}
+		res := c15.Run(t, x, verbose)
+		res.Class = "transfer/" + res.Class
+		res.Bump("cover.transfer_sessions")
+		return res
+	}
 	leak := common.Bubble(t, func() {
-		if sc.Kind == "session" {
+		if sc.Kind == "session" && sc.Transport == "udp" {
+			runUDPSession(sc, res, verbose)
+		} else if sc.Kind == "session" {
 			runSession(sc, res, verbose)
 		} else {
 			runBare(sc, res, verbose)
@@ -579,6 +617,8 @@ type sess struct {
 	srvSeen  []srvSeen
 	cliSeen  []cliSeen
 	cliFin   bool
+	udpFin   int
+	pc       *simnet.PacketConn
 	serveRet bool
 }
 
@@ -980,6 +1020,248 @@ func (s *sess) judge() {
 	}
 	res.Nontrivial = len(s.cliSeen) > 0
 	res.Class = fmt.Sprintf("session/%s/%s/exch=%d/ops=%d/srvkey=%s", core.Mode, strings.ToLower(sc.Alg), len(sc.Exch), len(sc.Ops), sc.ServerKey)
+}
+
+// ---------------------------------------------------------------- datagram sessions
+
+// yieldProvider is a TsigProvider with a scheduling point inside Verify (a
+// provider that looks keys up in a store would block there); the MAC itself
+// is computed with crypto/hmac.
+type yieldProvider struct {
+	k       *kernel.K
+	secrets map[string]string
+	slowUs  int // > 0: a verification takes up to this many microseconds of simulated time (a remote key store), so other datagrams arrive meanwhile
+}
+
+//go:norace
+func (p *yieldProvider) mac(msg []byte, t *dns.TSIG) ([]byte, error) {
+	sec, ok := p.secrets[t.Hdr.Name]
+	if !ok {
+		return nil, dns.ErrSecret
+	}
+	raw, err := base64.StdEncoding.DecodeString(sec)
+	if err != nil {
+		return nil, err
+	}
+	m := oracle.HMAC(dns.CanonicalName(t.Algorithm), raw, msg)
+	if m == nil {
+		return nil, dns.ErrKeyAlg
+	}
+	return m, nil
+}
+
+//go:norace
+func (p *yieldProvider) Generate(msg []byte, t *dns.TSIG) ([]byte, error) { return p.mac(msg, t) }
+
+//go:norace
+func (p *yieldProvider) Verify(msg []byte, t *dns.TSIG) error {
+	p.k.Yield("tsig.provider.verify", 0)
+	if p.slowUs > 0 {
+		p.k.Lock()
+		d := time.Duration(p.k.Env.IntN(p.slowUs)) * time.Microsecond
+		p.k.BumpLocked("fault.slow_tsig_provider")
+		p.k.Unlock()
+		p.k.Sleep("tsig.provider.slow", d)
+	}
+	m, err := p.mac(msg, t)
+	if err != nil {
+		return err
+	}
+	if hex.EncodeToString(m) != strings.ToLower(t.MAC) {
+		return dns.ErrSig
+	}
+	return nil
+}
+
+type udpClient struct {
+	s  *sess
+	ci int
+}
+
+//go:norace
+func (c *udpClient) RunEvent(time.Time) {
+	s, k, sc := c.s, c.s.k, c.s.sc
+	defer func() {
+		k.Lock()
+		s.udpFin++
+		if s.udpFin == sc.Clients {
+			s.cliFin = true
+		}
+		k.Unlock()
+	}()
+	d := s.n.DialPacket(s.pc)
+	co := &dns.Conn{Conn: d}
+	if sc.Burst {
+		// everything goes out first; the replies are taken off the socket
+		// undecoded (the server's verdicts are what is judged)
+		sent := 0
+		for i, e := range sc.Exch {
+			m := e.Recipe.Build()
+			m.Id = uint16(300 + c.ci*16 + i)
+			m.Question[0].Name = fmt.Sprintf("x%d.c%d.session.test.", i, c.ci)
+			if e.Signed {
+				m.SetTsig(keyName, sc.Alg, uint16(sc.Fudge), time.Now().Unix())
+			}
+			w := &dns.Conn{Conn: d, TsigSecret: map[string]string{keyName: secretGood}}
+			if w.WriteMsg(m) == nil {
+				sent++
+			}
+		}
+		d.SetDeadline(time.Now().Add(10 * time.Second))
+		buf := make([]byte, 4096)
+		for i := 0; i < sent; i++ {
+			if _, err := d.Read(buf); err != nil {
+				break
+			}
+		}
+		return
+	}
+	for i, e := range sc.Exch {
+		m := e.Recipe.Build()
+		m.Id = uint16(300 + c.ci*16 + i)
+		m.Question[0].Name = fmt.Sprintf("x%d.c%d.session.test.", i, c.ci)
+		if e.Signed {
+			m.SetTsig(keyName, sc.Alg, uint16(sc.Fudge), time.Now().Unix())
+		}
+		if !e.Reuse {
+			co = &dns.Conn{Conn: d}
+		}
+		cl := &dns.Client{Timeout: 30 * time.Second, UDPSize: 4096, TsigSecret: map[string]string{keyName: secretGood}}
+		r, _, err := cl.ExchangeWithConn(m, co)
+		cs := cliSeen{conn: c.ci, id: m.Id, err: common.ErrStr(err), got: r != nil, t: time.Now()}
+		k.Lock()
+		s.cliSeen = append(s.cliSeen, cs)
+		k.EffectLocked("cli " + strconv.Itoa(int(m.Id)) + " " + cs.err)
+		k.Unlock()
+	}
+}
+
+//go:norace
+func runUDPSession(sc *Scenario, res *core.Result, verbose bool) {
+	time.Sleep(time.Duration(sc.EpochS) * time.Second)
+	k := kernel.New(kernel.Config{Seed: sc.RunSeed, Strategy: sc.Strategy, PCTDepth: 2, PCTSpan: 120, Verbose: verbose, MaxSteps: 60000})
+	kernel.SetCurrent(k)
+	defer kernel.SetCurrent(nil)
+	n := simnet.New(k)
+	n.Dgram = simnet.DgramLink{MinDelay: time.Millisecond, Jitter: time.Duration(sc.RunSeed%3) * time.Millisecond}
+	s := &sess{sc: sc, k: k, n: n, res: res}
+	s.pc = n.ListenPacket()
+	srvSecrets := map[string]string{}
+	switch sc.ServerKey {
+	case "right", "":
+		srvSecrets[keyName] = secretGood
+	case "wrong":
+		srvSecrets[keyName] = secretBad
+	}
+	s.srv = &dns.Server{PacketConn: s.pc, Handler: s, ReadTimeout: time.Hour, UDPSize: 512}
+	if len(srvSecrets) > 0 {
+		s.srv.TsigProvider = &yieldProvider{k: k, secrets: srvSecrets, slowUs: []int{0, 500, 5000, 5000}[sc.RunSeed%4]}
+	}
+	start0 := time.Now()
+	k.Go("serve", sessServe{s})
+	for ci := 0; ci < sc.Clients; ci++ {
+		k.Go("client"+strconv.Itoa(ci), &udpClient{s, ci})
+	}
+	k.Go("life", sessLife{s})
+	out := k.Run(sessDone{s})
+	res.Steps = k.Steps
+	res.SimNS = int64(time.Since(start0))
+	res.Digest = k.Digest()
+	for name, v := range k.Stats {
+		res.Stats[name] += v
+	}
+	if verbose {
+		res.Log = k.Log
+	}
+	defer k.Abort()
+	switch out {
+	case kernel.StepCap:
+		res.Verdict, res.Msg = core.Harness, "step cap reached"
+		return
+	case kernel.Quiescent:
+		res.Fail("V1", "session-stuck", "the session cannot make progress: parked %v", k.Parked())
+		return
+	}
+	// server side: every delivered signed request against the oracle
+	used := map[int]bool{}
+	reqMAC := map[uint16][]byte{}
+	for _, d := range s.pc.Received {
+		f := d.Seen
+		if len(f) < 12 {
+			continue
+		}
+		id := uint16(f[0])<<8 | uint16(f[1])
+		ts, _, has := oracle.FindTSIG(f)
+		if !has {
+			continue
+		}
+		reqMAC[id] = ts.MAC
+		var seen *srvSeen
+		for j := range s.srvSeen {
+			if !used[j] && s.srvSeen[j].id == id {
+				seen, used[j] = &s.srvSeen[j], true
+				break
+			}
+		}
+		if seen == nil || len(srvSecrets) == 0 {
+			continue
+		}
+		v := oracle.VerifyTSIG(f, srvSecrets, nil, false, uint64(seen.t.Unix()))
+		if !v.Judgable {
+			continue
+		}
+		if v.Valid {
+			res.Bump("oracle.G1_valid_accepted")
+			if seen.status != "" {
+				res.Fail("G1", "server-valid-rejected", "the datagram server reported TsigStatus %q for a request (id %d) that is RFC 8945-valid under its key: what it verified was not the request it had received", seen.status, id)
+				return
+			}
+		} else {
+			res.Bump("oracle.V1_invalid_rejected")
+			if seen.status == "" {
+				res.Fail("V1", "server-invalid-accepted:"+strings.ReplaceAll(v.Reason, " ", "-"), "the datagram server reported a nil TsigStatus for a request (id %d) that is not RFC 8945-valid: %s", id, v.Reason)
+				return
+			}
+		}
+	}
+	// client side
+	for _, d := range s.n.Dgrams {
+		if d.From.S != "10.0.0.1:53" || !d.Delivered || len(d.Data) < 12 {
+			continue
+		}
+		id := uint16(d.Data[0])<<8 | uint16(d.Data[1])
+		if _, _, has := oracle.FindTSIG(d.Data); !has {
+			continue
+		}
+		prior, ok := reqMAC[id]
+		if !ok {
+			continue
+		}
+		for _, cs := range s.cliSeen {
+			if cs.id != id || !cs.got {
+				continue
+			}
+			v := oracle.VerifyTSIG(d.Data, map[string]string{keyName: secretGood}, prior, false, uint64(cs.t.Unix()))
+			if !v.Judgable {
+				continue
+			}
+			if v.Valid {
+				res.Bump("oracle.G1_valid_accepted")
+				if cs.err != "" {
+					res.Fail("G1", "client-valid-rejected", "the client got %q for a datagram reply (id %d) that is RFC 8945-valid for the MAC of its request", cs.err, id)
+					return
+				}
+			} else {
+				res.Bump("oracle.V1_invalid_rejected")
+				if cs.err == "" {
+					res.Fail("V1", "client-invalid-accepted:"+strings.ReplaceAll(v.Reason, " ", "-"), "the client accepted a signed datagram reply (id %d) that is not RFC 8945-valid: %s", id, v.Reason)
+					return
+				}
+			}
+		}
+	}
+	res.Nontrivial = len(s.cliSeen) > 0
+	res.Class = fmt.Sprintf("session-udp/%s/%s/clients=%d/exch=%d/srvkey=%s", core.Mode, strings.ToLower(sc.Alg), sc.Clients, len(sc.Exch), sc.ServerKey)
 }
 
 func init() {
